@@ -12,6 +12,7 @@ import (
 	"sort"
 	"strings"
 	"sync"
+	"sync/atomic"
 	"unicode/utf8"
 
 	spg "go.1password.io/spg"
@@ -30,6 +31,8 @@ type GenOut struct {
 	Pw    *spg.Password
 	Err   error
 	Panic interface{}
+	// SourceFailed: a read of the scripted source was answered with an error during the call
+	SourceFailed bool
 }
 
 func (g GenOut) Kind() string {
@@ -49,6 +52,9 @@ func (g GenOut) Kind() string {
 func (g GenOut) SourcePanic() bool {
 	if g.Panic == nil {
 		return false
+	}
+	if g.SourceFailed {
+		return true
 	}
 	s := fmt.Sprint(g.Panic)
 	return strings.Contains(s, "tape:") || strings.Contains(s, "PRNG")
@@ -83,14 +89,15 @@ func runGen(g interface{}, t *tape.Tape) (out GenOut) {
 	if t != nil {
 		t.Install()
 	}
+	before := atomic.LoadInt64(&tape.ErrorsDelivered)
 	defer func() {
 		if r := recover(); r != nil {
-			out = GenOut{Panic: r}
+			out = GenOut{Panic: r, SourceFailed: atomic.LoadInt64(&tape.ErrorsDelivered) != before}
 		}
 		tape.Restore()
 	}()
 	p, err := f()
-	return GenOut{Pw: p, Err: err}
+	return GenOut{Pw: p, Err: err, SourceFailed: atomic.LoadInt64(&tape.ErrorsDelivered) != before}
 }
 
 // TokRec is a token as recorded in outcomes and samples.
@@ -235,6 +242,7 @@ func (d CharDesc) String() string { b, _ := json.Marshal(d); return string(b) }
 
 var charPools = []string{
 	"abcdef", "abcxyz", "AbCdEf", "0123", "01OIl5S", "!@.-_*", "éßñüø", "語漢字かな", "🙂🚀𝒳𝔘", "áè", "aé語🙂", " \t~|",
+	"٣५５a7", "ÉΩЖbZ", "λжßQz", "¡¿§!x", // characters that share a Unicode category, but not a class, with the built-in classes
 }
 
 func subsetOf(r *gen.R, chars []string, min, max int) string {
@@ -352,6 +360,29 @@ func smallCharRecipe(r *gen.R, maxAlpha, maxLen, maxReq int) spg.CharRecipe {
 				rec.Allow = spg.Digits
 				rec.Exclude = spg.Ambiguous
 				rec.ExcludeChars += subsetOf(r, oracle.Chars("2346789"), 3, 6)
+			}
+			switch r.Intn(8) { // a class next to custom characters that look like members of it, or are excluded members of it
+			case 0: // a required class and allowed characters of the same Unicode category outside the class
+				rec.Allow, rec.Require, rec.Exclude = 0, spg.Digits, 0
+				rec.ExcludeChars = subsetOf(r, oracle.Chars("0123456789"), 7, 9)
+				rec.AllowChars = subsetOf(r, oracle.Chars("٣५５x"), 1, 3)
+			case 1:
+				rec.Allow, rec.Require, rec.Exclude = 0, spg.Uppers, 0
+				rec.ExcludeChars = subsetOf(r, oracle.Chars("ABCDEFGHIJKLMNOPQRSTUVWXYZ"), 23, 25)
+				rec.AllowChars = subsetOf(r, oracle.Chars("ÉΩЖq"), 1, 3)
+			case 2:
+				rec.Allow, rec.Require, rec.Exclude = 0, spg.Lowers, 0
+				rec.ExcludeChars = subsetOf(r, oracle.Chars("abcdefghijklmnopqrstuvwxyz"), 23, 25)
+				rec.AllowChars = subsetOf(r, oracle.Chars("λжßQ"), 1, 3)
+			case 3: // a custom required set holding members of a class excluded by flag
+				rec.Allow, rec.Require = 0, 0
+				rec.Exclude = []spg.CTFlag{spg.Ambiguous, spg.Digits, spg.Ambiguous | spg.Symbols}[r.Intn(3)]
+				rec.ExcludeChars = ""
+				rec.AllowChars = subsetOf(r, oracle.Chars("abxy"), 1, 3)
+				rec.RequireSets = []string{subsetOf(r, oracle.Chars("0123!@OI"), 2, 4) + "q"}
+				if r.Bool() {
+					rec.RequireSets = append(rec.RequireSets, subsetOf(r, oracle.Chars("15Sl.-z"), 1, 3)+"z")
+				}
 			}
 			if r.Chance(1, 3) { // the Ambiguous class as something allowed or required, not only excluded
 				switch r.Intn(3) {
